@@ -187,6 +187,12 @@ func (c LimitCfg) floorOf() int {
 	return 1
 }
 
+// genTableEdge: limits around the sizes of the pre-computed sqrt / log10 tables (1000 entries) and around
+// the powers of ten where the log10 steps change.
+func genTableEdge() *rapid.Generator[int] {
+	return rapid.SampledFrom([]int{9, 10, 11, 99, 100, 101, 998, 999, 1000, 1001, 1002, 1003, 1005, 1010, 1100, 2000})
+}
+
 func genSmoothing() *rapid.Generator[float64] {
 	return rapid.OneOf(rapid.SampledFrom([]float64{1, 0.2, 0.5, 0.05, 0.9}), rapid.Float64Range(0.01, 1))
 }
@@ -234,12 +240,12 @@ func genLimitCfg(t *rapid.T, algos []string, allowWrappers bool) LimitCfg {
 		c.Backoff = rapid.OneOf(rapid.SampledFrom([]float64{0.9, 0.5, 1, 0.99, 0.1}), rapid.Float64Range(0.01, 1)).Draw(t, "backoff")
 		c.IncreaseBy = rapid.IntRange(1, 50).Draw(t, "incr")
 	case "vegas":
-		c.Max = rapid.OneOf(rapid.IntRange(1, 30), rapid.IntRange(1, 3000)).Draw(t, "max")
-		c.Initial = rapid.OneOf(rapid.IntRange(1, c.Max), rapid.IntRange(1, 3000)).Draw(t, "initial")
+		c.Max = rapid.OneOf(rapid.IntRange(1, 30), rapid.IntRange(1, 3000), genTableEdge()).Draw(t, "max")
+		c.Initial = rapid.OneOf(rapid.IntRange(1, c.Max), rapid.IntRange(1, 3000), genTableEdge()).Draw(t, "initial")
 		c.Smoothing = genSmoothing().Draw(t, "smoothing")
 		c.ProbeMult = rapid.OneOf(rapid.Just(0), rapid.IntRange(1, 100)).Draw(t, "pm")
 	case "gradient":
-		c.Max = rapid.OneOf(rapid.IntRange(1, 30), rapid.IntRange(1, 3000)).Draw(t, "max")
+		c.Max = rapid.OneOf(rapid.IntRange(1, 30), rapid.IntRange(1, 3000), genTableEdge()).Draw(t, "max")
 		c.Min = rapid.IntRange(1, minInt(c.Max, 40)).Draw(t, "min")
 		c.Initial = rapid.OneOf(rapid.IntRange(c.Min, c.Max), rapid.IntRange(c.Min, 3000)).Draw(t, "initial")
 		c.Smoothing = genSmoothing().Draw(t, "smoothing")
@@ -250,7 +256,7 @@ func genLimitCfg(t *rapid.T, algos []string, allowWrappers bool) LimitCfg {
 			c.Queue = fmt.Sprintf("fixed:%d", minInt(4, c.Max)) // default sqrt:4 may exceed a tiny max
 		}
 	case "gradient2":
-		c.Max = rapid.OneOf(rapid.IntRange(1, 30), rapid.IntRange(1, 3000)).Draw(t, "max")
+		c.Max = rapid.OneOf(rapid.IntRange(1, 30), rapid.IntRange(1, 3000), genTableEdge()).Draw(t, "max")
 		c.Min = rapid.IntRange(1, minInt(c.Max, 40)).Draw(t, "min")
 		c.Initial = rapid.OneOf(rapid.IntRange(c.Min, c.Max), rapid.IntRange(c.Min, 3000)).Draw(t, "initial")
 		c.Smoothing = genSmoothing().Draw(t, "smoothing")
